@@ -18,10 +18,10 @@ ASSUMPTIONS = ["exact sets: acyclic games with arbitrary ties; cyclic stopping g
                "separated by more than 2*delta*T+2e-6 (the property's own scope)",
                "the conditioned game is rebuilt from the reported reachability strategies, so a C04 tie split does not cascade"]
 TIMEOUT = 1800
-TABLE = [("G-LEX", 600), ("G-ACYT", 600), ("G-ACY", 300), ("G-CYC", 500), ("G-DEAD", 400), ("G-TIE", 200), ("G-EC", 200), ("G-SLOW", 80), ("G-ACYNF", 300), ("G-CYCNF", 200), ("G-TINYB", 200), ("G-INIT0NF", 100), ("G-RNEAR", 300), ("G-AUXFAST", 60), ("G-DUPL", 200), ("G-MIX", 500), ("G-SMALLX", 200), ("G-VSLOW", 4), ("G-GAP", 300), ("G-BIGR", 300), ("G-CORR", 100), ("G-DIGIT", 200), ("G-RETRY", 200)]
+TABLE = [("G-LEX", 600), ("G-ACYT", 600), ("G-ACY", 300), ("G-CYC", 500), ("G-DEAD", 400), ("G-TIE", 200), ("G-EC", 200), ("G-SLOW", 80), ("G-ACYNF", 300), ("G-CYCNF", 200), ("G-TINYB", 200), ("G-INIT0NF", 100), ("G-RNEAR", 300), ("G-AUXFAST", 60), ("G-DUPL", 200), ("G-MIX", 500), ("G-SMALLX", 200), ("G-VSLOW", 4), ("G-GAP", 300), ("G-BIGR", 300), ("G-CORR", 100), ("G-DIGIT", 200), ("G-RETRY", 200), ("G-FINREP", 150)]
 
 
-def plan(tier, seed):
+def _plan_base(tier, seed):
     return sc.plan_classes(tier, TABLE) + boards_common.plan_boards(tier)
 
 
@@ -89,7 +89,16 @@ def _gen(batch, idx):
     return games.gen_class(rng, batch["cls"])
 
 
+def plan(tier, seed):
+    from . import threads_common
+    return threads_common.plan_threads(tier) + _plan_base(tier, seed)
+
+
 def run_batch(batch):
+    if batch["cls"] == "THREADS":
+        from . import threads_common
+        yield from threads_common.run(batch, PID, ["final_strategies"], EMIT_START, 'solve', None)
+        return
     monitors.install()
     monitors.MON.flags.update(alias=False, prune=False)
     if batch["cls"].startswith("B-"):
@@ -105,6 +114,9 @@ def run_batch(batch):
 
 
 def replay(case):
+    if "threads" in case:
+        from . import threads_common
+        return threads_common.replay(case, PID, ["final_strategies"], 'solve', None)
     monitors.install()
     if "game" in case and isinstance(case["game"], dict):
         return decide(games.dec_game(case["game"]), 0, "REPLAY")
